@@ -192,8 +192,8 @@ def r_stmt(s, ind, twin, ctx):
     if k == "ann":
         v, ann, e = s[1], s[2], s[3]
         if e is None:
-            if twin:
-                # declared-only: must be supplied from outside
+            if twin and (ctx.get("declared") is None or v in ctx["declared"]):
+                # declared-only and instrumented: must be supplied from outside
                 return [f"{ind}{v} = H.declare({v!r})"]
             return [f"{ind}{v}: {ann}"]
         out = [f"{ind}{v}: {ann} = {r_expr(e, twin)}"]
@@ -339,9 +339,11 @@ def param_bind_order(fn):
     return [p[0] for p in sorted(fn["params"], key=lambda p: PARAM_ORDER[p[1]])]
 
 
-def render(fn, twin=False, bind_stores=False):
-    """Source text of a module defining the function (and its factory for closures)."""
-    ctx = {"loops": 0, "bind_stores": bind_stores}
+def render(fn, twin=False, bind_stores=False, declared=None, entry_declares=()):
+    """Source text of a module defining the function (and its factory for closures).
+    declared: names whose bare annotation is instrumented (None: all); entry_declares:
+    instrumented undefined globals, fetched at entry like ptera does."""
+    ctx = {"loops": 0, "bind_stores": bind_stores, "declared": declared}
     name = fn["name"]
     base = IND if fn.get("closure") else ""
     lines = []
@@ -359,6 +361,8 @@ def render(fn, twin=False, bind_stores=False):
             lines += r_stmt(d, ind, twin, ctx)
         lines.append(f"{ind}H.enter()")
         lines.append(f"{ind}try:")
+        for ug in sorted(entry_declares):
+            lines.append(f"{ind}{IND}{ug} = H.declare({ug!r})")
         lines += _binds(param_bind_order(fn), ind + IND)
         lines += r_stmts(rest, ind + IND, twin, ctx)
         if not rest or rest[-1][0] != "return":
